@@ -45,6 +45,32 @@ def lexChars (read : Read) : Nat → Lexer → List (Nat × Int × Nat)
 def lexStream (read : Read) (fuel : Nat) : List (Nat × Int × Nat) :=
   lexChars read fuel ((({} : Lexer).setInput).start read)
 
+/-- The chunk cache of the lexer: `chunk_start` and the cached chunk (`[]` = none). -/
+structure Cache where
+  cs : Nat
+  chunk : List Nat
+
+/-- Re-fetch when the position is outside the cached chunk (as `ts_lexer__do_advance` does). -/
+def fetch (read : Read) (pos : Nat) (c : Cache) : Cache :=
+  if pos < c.cs ∨ pos ≥ c.cs + c.chunk.length then ⟨pos, read pos⟩ else c
+
+/-- The `(offset, code point, size)` sequence produced by the chunk logic of the lexer port alone
+(`fetch`, `decodeAt` with its retry, position += size; no ranges, no columns). -/
+def coreChars (read : Read) : Nat → Nat → Cache → List (Nat × Int × Nat)
+  | 0, _, _ => []
+  | fuel + 1, pos, c =>
+    let c := fetch read pos c
+    if c.chunk.isEmpty then []
+    else
+      let r := decodeAt read (c.chunk.drop (pos - c.cs)) pos
+      let c' : Cache := match r.2.2 with
+        | some nc => ⟨pos, nc⟩
+        | none => c
+      (pos, r.1, r.2.1) :: coreChars read fuel (pos + r.2.1) c'
+
+/-- Cache invariant: nothing cached, or a prefix of the text at `chunk_start`. -/
+def CacheOK (text : List Nat) (c : Cache) : Prop := c.chunk = [] ∨ c.chunk <+: text.drop c.cs
+
 /-- The chunk providers of the explorers: `w` (rest of the text), `c<k>` (at most `k` bytes),
 `s<p1,p2,…>` (up to the next split point). -/
 def schemeRead (doc : Array Nat) (scheme : String) : Read := fun byte =>
